@@ -4,6 +4,7 @@
 //! runs the real implementation on every point / state and judges it with an oracle.
 
 pub mod common;
+pub mod corpus;
 pub mod engines;
 pub mod props;
 pub mod refmodel;
